@@ -129,6 +129,19 @@ def route(q, r):
     return Q.get_quantizer(route.text)
   if r.startswith("RT_Text"):
     return Q.get_quantizer(route.text)
+  if r == "RT_StrMut":
+    # history: the same text was parsed before and the object it produced was then changed in place the way library
+    # code changes quantizers (a layer's kernel role calls _set_trainable_parameter, the noise scheduler calls
+    # update_qnoise_factor, QAdaptiveActivation re-assigns bits) - parsing the text again must give a fresh quantizer
+    route.text = str(q)
+    first = Q.get_quantizer(route.text)
+    for mutate in (lambda: first._set_trainable_parameter(), lambda: first.update_qnoise_factor(0.25),
+                   lambda: setattr(first, "bits", first.bits + 1)):
+      try:
+        mutate()                    # whichever of these the class supports
+      except Exception:
+        pass
+    return Q.get_quantizer(route.text)
   raise ValueError(r)
 
 
@@ -151,7 +164,7 @@ def main():
                                                       [("RT_FromConfig", "RT_FromConfig"), ("RT_Lookup", "RT_Keras"),
                                                        ("RT_Keras", "RT_FromConfig")] + rnd.sample(pairs, 1))]
     if len(sys.argv) > 7 and sys.argv[7] == "text":
-      seqs = [["RT_Str"], ["RT_Text0"], ["RT_Text1"], ["RT_Text2"], ["RT_Str", "RT_Str"], ["cold", "RT_Str"]]
+      seqs = [["RT_Str"], ["RT_Text0"], ["RT_Text1"], ["RT_Text2"], ["RT_Str", "RT_Str"], ["cold", "RT_Str"], ["RT_StrMut"]]
       if any(str(v).startswith("a:") for v in c["opts"].values()):
         seqs = [s_ for s_ in seqs if not s_[0].startswith("RT_Text")]   # an ndarray argument has no text in the literal grammar
     else:
